@@ -26,6 +26,16 @@ func valueFieldByName(v reflect.Value, fields []string) (out reflect.Value, ok b
 		v = v.Elem()
 	}
 
+	// end of path (reached through a pointer)
+	if len(fields) == 0 {
+		return v, v.IsValid()
+	}
+
+	// the path goes through something which is not a structure
+	if v.Kind() != reflect.Struct {
+		return out, false
+	}
+
 	out = v.FieldByName(fields[0])
 
 	// if pointer we dereference
@@ -42,6 +52,11 @@ func valueFieldByName(v reflect.Value, fields []string) (out reflect.Value, ok b
 		return valueFieldByName(out, fields[1:])
 	}
 
+	// the path goes further than a field which is not a structure
+	if len(fields) > 1 {
+		return out, false
+	}
+
 	return out, out.IsValid()
 }
 
@@ -49,8 +64,9 @@ func fieldByName(o Object, fpath []string) (i interface{}, ok bool) {
 	v := reflect.ValueOf(o)
 
 	v, ok = valueFieldByName(v, fpath)
-	if !ok {
-		return nil, ok
+	// unexported fields are unknown to the API
+	if !ok || !v.CanInterface() {
+		return nil, false
 	}
 
 	return v.Interface(), ok
